@@ -864,7 +864,7 @@ def _run_plumb(case):
           if got != sorted([(784, hu), (hu,), (hu, hu), (hu,), (hu, nc), (nc,)]):
             bad.append(f'emnist.create_{nm}_model(only_digits={digits}, hidden_units={hu}): parameter shapes {got}')
       for nm, fn in (('conv', models.emnist.create_conv_model), ('logistic', models.emnist.create_logistic_model)):
-        for digits, nc in ((True, 10), (False, 62)):
+        for digits, nc in (((True, 10),) if nm == 'conv' else ((True, 10), (False, 62))):      # conv with 62 classes is built in rowindep / tasks
           got = shp(fn(digits) if nm == 'conv' else fn(only_digits=digits))
           if (nc,) not in got or ((10 if nc == 62 else 62),) in got:
             bad.append(f'emnist.create_{nm}_model(only_digits={digits}) does not have {nc} outputs')
@@ -1006,7 +1006,8 @@ def _run_misc(case):
                           (lambda a: cifar100.preprocess_image(a, is_train=False), ev['x'])):
           try:
             got_ = fn(v)
-            if got_.shape != want_.shape or float(np.max(np.abs(got_ - want_))) > 1e-5:
+            # (float32 reductions run in another order on another memory layout: round-off only)
+            if got_.shape != want_.shape or float(np.max(np.abs(got_ - want_))) > 2e-4 * (1 + float(np.max(np.abs(want_)))):
               bad.append(f'a {nm} image batch is preprocessed differently from the same images in C order')
           except Exception as ex_:  # pylint: disable=broad-except
             bad.append(f'a {nm} image batch is rejected: {type(ex_).__name__}')
